@@ -3,7 +3,7 @@
 import json, os, shutil, sys
 prop, n, line = sys.argv[1], sys.argv[2], sys.argv[3]
 res = json.loads(line)
-src = "/tmp/seed/%s/_seed/%s" % (prop, n)
+src = os.environ.get("SEED_SRC") or "/tmp/seed/%s/_seed/%s" % (prop, n)
 dst = "/verif/seeded/%s_%s" % (prop, n)
 os.makedirs(dst, exist_ok=True)
 for f in ("patch.diff", "demo_test.go", "notes.md"):
